@@ -926,3 +926,19 @@ pub fn persist_alphabet(p: &Program) -> Vec<Op> {
     a.push(Op::RoundTrip);
     a
 }
+
+/// C20: a fixpoint head that calls its partner only while a LOW flag is set; the partner's own
+/// inputs are HIGH, so a provisional memo of it abandoned by a cancellation passes shallow
+/// verification in the next revision.
+pub fn flag_cycle() -> Program {
+    Program {
+        name: "flagcyc-Fx".into(),
+        cells: vec![(1, Dur::Low), (2, Dur::High)],
+        nodes: vec![
+            NodeDef::new(Kind::Fx, Ex::ifc(0, Ex::or(call(1), k(1)), k(4))),
+            NodeDef::new(Kind::Fx, Ex::or(call(0), cell(1))).dur(Dur::High),
+        ],
+        ext: vec![0],
+        root0: None,
+    }
+}
